@@ -364,8 +364,19 @@ collect:
 	// judge
 	problems := early
 	count := make([]int, nLogs)
+	emittedLive := map[int]bool{}
+	for e := 0; e < nEp; e++ {
+		for _, x := range emitted[e] {
+			if !x.removed {
+				emittedLive[x.idx] = true
+			}
+		}
+	}
 	for _, v := range got {
 		name, fields := describe(v)
+		// the emitted logs whose decoded fields equal the delivered ones (several, when two logs differ
+		// only in a field the node's event does not carry): the delivery is attributed to one that is
+		// still owed a delivery, else to the one with the fewest so far
 		match := -1
 		for i, h := range hist {
 			if h.typ.event != name && !(name == "LogStartCommitReveal" && h.typ.event == "LogStartCommitReveal") {
@@ -383,9 +394,17 @@ collect:
 					break
 				}
 			}
-			if ok {
+			if !ok {
+				continue
+			}
+			owed := emittedLive[i] && count[i] == 0
+			switch {
+			case match < 0:
 				match = i
-				break
+			case owed && !(emittedLive[match] && count[match] == 0):
+				match = i
+			case !owed && !(emittedLive[match] && count[match] == 0) && count[i] < count[match]:
+				match = i
 			}
 		}
 		if match < 0 {
@@ -393,14 +412,6 @@ collect:
 			continue
 		}
 		count[match]++
-	}
-	emittedLive := map[int]bool{}
-	for e := 0; e < nEp; e++ {
-		for _, x := range emitted[e] {
-			if !x.removed {
-				emittedLive[x.idx] = true
-			}
-		}
 	}
 	var delivered []int
 	for i, c := range count {
